@@ -2,7 +2,7 @@
 import re
 import mir
 import sql
-from mir import term_str, strip_refs, callee_name, field_path, full_path
+from mir import term_str, strip_refs, callee_name, field_path, full_path, short
 from rules import rights
 
 
@@ -156,3 +156,301 @@ def run(P, C, tier):
         C.ob("R4", "direction-from-key", len(dirs) == 1, go.loc(), "asc/desc chosen by a match on the direction of the same order_by element")
     except mir.MissingAnchor as e:
         C.anchor_missing("R4", "get_order", e)
+    run_tables(P, C)
+
+
+# ---------------------------------------------------------------------------------------------------------------
+# R5..R8: tables of the compiler that the statement of C05 names (paging, aggregates, filters, field accessors)
+
+def _templates(b):
+    """[(block, parts)] of every format! of a body (parts with holes expanded to their definitions)"""
+    out = []
+    for bi, t in b.live_calls():
+        if callee_name(t).endswith("fmt::format"):
+            parts = sql.format_parts(b.def_term(bi, None, t, 0, expand_vars=True))
+            if parts:
+                out.append((bi, parts))
+    return out
+
+
+def _lits(parts):
+    return "".join(p[1] if p[0] == "lit" else "{}" for p in parts)
+
+
+def _find_sub(t, pred):
+    for s in mir.subterms(t):
+        if pred(s):
+            return s
+    return None
+
+
+def _index_call(t, coll_re):
+    """the `index(&coll, i)` subterm of t whose collection matches coll_re -> (collection term, index term)"""
+    s = _find_sub(t, lambda s: s[0] == "call" and s[1].endswith("::index") and len(s[2]) == 2 and re.search(coll_re, term_str(s[2][0])))
+    return (s[2][0], strip_refs(s[2][1])) if s else None
+
+
+def _scenario_eval(b, local, scen, depth=0):
+    """value of a local in the scenario `scen` = truth of `Vec::is_empty(<params>.before)`: the definition whose guards are all
+    consistent with the scenario and that has the most guards (the most specific = the latest assignment)"""
+    best = None
+    for (bi, si, rv, lhs) in b.defs().get(local, ()):
+        if b.blocks[bi]["cl"] or len(lhs) != 1 or bi not in b.live_blocks():
+            continue
+        ok = True
+        n = 0
+        for atom, truth in b.guard_atoms(bi):
+            a = strip_refs(atom)
+            if a[0] == "call" and a[1].endswith("::is_empty") and term_str(a).endswith(".before)"):
+                n += 1
+                if truth is not None and truth != scen:
+                    ok = False
+            elif a[0] == "var" and len(a) > 2 and b.locals[a[2]] == "bool" and depth < 3 and a[2] != local:
+                v = _scenario_eval(b, a[2], scen, depth + 1)
+                if v is not None and v[0] == "const" and truth is not None:
+                    n += 1
+                    if v[1] != truth:
+                        ok = False
+        if ok and (best is None or n > best[0]):
+            best = (n, strip_refs(b.def_term(bi, si, rv, 0)))
+    if best is None:
+        return None
+    v = best[1]
+    neg = False
+    while v[0] == "un" and v[1] == "Not":
+        v = strip_refs(v[2])
+        neg = not neg
+    if v[0] == "call" and v[1].endswith("::is_empty") and term_str(v).endswith(".before)"):
+        return ("const", (not scen) if neg else scen)
+    if v[0] == "const" and neg:
+        return ("const", not v[1])
+    return v
+
+
+WANT_OPE = {("Asc", "before"): "<", ("Asc", "after"): ">", ("Desc", "before"): ">", ("Desc", "after"): "<"}
+AGG = {"Avg": r"\bavg\(\{\}\)", "Count": r"\bcount\((1|\*)\)", "Max": r"\bmax\(\{\}\)", "Min": r"\bmin\(\{\}\)", "Sum": r"\b(total|sum)\(\{\}\)"}
+
+
+def run_tables(P, C):
+    C.rule("R5", "get_paging: the comparison emitted for key i is `<` for (asc, before) and (desc, after), `>` for (asc, after) and (desc, before), decided by "
+                 "the direction of that same key; key i is compared with cursor value i; the tie prefix compares keys j<i with value j by `=`")
+    C.rule("R6", "get_fields: each aggregate function is compiled to the SQL aggregate of the same name over the field named in the query")
+    C.rule("R7", "the three filter compilers agree: a comparison with the null literal is emitted as `is` for `=` and `is not` for `!=`")
+    C.rule("R8", "a key selected by the query is addressed through the result column (value->>'$.<alias>'), a key that is not selected through the stored "
+                 "document (_json->>'$.<short name>'), a system column by its name: every template of the compiler pairs accessor and name consistently")
+    # ---- R5
+    try:
+        gp = P.body("query::get_paging")
+        tpls = _templates(gp)
+        main, prefix = [], []
+        for bi, parts in tpls:
+            holes = [p for p in parts if p[0] == "hole"]
+            if len(holes) == 3:
+                main.append((bi, parts, holes))
+            elif len(holes) == 2 and re.search(r"\s=\s", _lits(parts)):
+                prefix.append((bi, parts, holes))
+        C.floor("R5", "comparison templates", len(main), 3)
+        C.floor("R5", "tie-prefix templates", len(prefix), 3)
+        # operator local(s)
+        ope_locals = set()
+        for bi, parts, holes in main:
+            h = holes[1]
+            for s in mir.subterms(h[1]):
+                pass
+        # the operator hole is a char: find the char locals assigned constants
+        chars = [l for l, name, ty, leaf in gp.named_locals() if ty == "char"]
+        table = {}
+        bad = []
+        lists = {}
+        for scen in (True, False):
+            pl = [l for l, name, ty, leaf in gp.named_locals() if re.search(r"Vec<.*FieldValue>", ty) and ty.startswith("&")]
+            if len(pl) != 1:
+                raise mir.MissingAnchor("get_paging: the cursor list variable (a &Vec<FieldValue>) is not unique: %s" % pl)
+            v = _scenario_eval(gp, pl[0], scen)
+            fp = field_path(v) if v is not None else ""
+            lists[scen] = "before" if fp.endswith(".before") else "after" if fp.endswith(".after") else None
+        C.ob("R5", "cursor-list", lists.get(False) == "before" and lists.get(True) == "after", gp.loc(),
+             "the cursor values are `before` when it is not empty, otherwise `after`: before-empty=%s before-non-empty=%s" % (lists.get(True), lists.get(False)))
+        for l in chars:
+            for (bi, si, rv, lhs) in gp.defs().get(l, ()):
+                if gp.blocks[bi]["cl"] or bi not in gp.live_blocks():
+                    continue
+                v = strip_refs(gp.def_term(bi, si, rv, 0))
+                if v[0] != "const" or not isinstance(v[1], int):
+                    continue
+                direction = None
+                which = None
+                for atom, truth in gp.guard_atoms(bi):
+                    a = strip_refs(atom)
+                    if a[0] == "discr" and field_path(a[1]).endswith(".direction"):
+                        pass
+                for s, vals, term in gp.guards(bi):
+                    dv = mir.discr_variants(term, vals)
+                    if dv and field_path(dv[0]).endswith("direction") and len(dv[1]) == 1:
+                        direction = (dv[1][0], _index_call(gp.switch_term(s, expand_vars=True), r"order_by"))
+                    else:
+                        atom, truth = mir.cond_atoms(term, vals)
+                        a = strip_refs(atom)
+                        if a[0] == "var" and len(a) > 2 and gp.locals[a[2]] == "bool" and truth is not None:
+                            sc = [scen for scen in (True, False) if (_scenario_eval(gp, a[2], scen) or ("?",))[:2] == ("const", truth)]
+                            if len(sc) == 1:
+                                which = lists.get(sc[0])
+                        elif a[0] == "call" and a[1].endswith("::is_empty") and term_str(a).endswith(".before)") and truth is not None:
+                            which = lists.get(truth)
+                if direction is None or which is None:
+                    bad.append("operator %r assigned at %s is not decided by (direction of the key, before/after): direction=%s list=%s" % (chr(v[1]), gp.loc(bi), direction, which))
+                    continue
+                table.setdefault((direction[0], which), set()).add(chr(v[1]))
+                table.setdefault("idx", set()).add(term_str(direction[1][1]) if direction[1] else "?")
+        for k, want in sorted(WANT_OPE.items()):
+            got = table.get(k)
+            C.ob("R5", "operator:%s-%s" % k, got == {want}, gp.loc(), "%s key, %s cursor: operator %s (needed: %s)" % (k[0], k[1], sorted(got) if got else None, want))
+        C.ob("R5", "operator-decided", not bad, gp.loc(), "; ".join(bad) or "every operator constant is assigned under a match on the key's direction and the before/after choice")
+        for n, (bi, parts, holes) in enumerate(main):
+            ki = _index_call(holes[0][1], r"order_by")
+            vi = _index_call(holes[2][1], r"before|after|paging")
+            ope = strip_refs(holes[1][1])
+            ope_ok = (ope[0] == "phi" and {strip_refs(x)[1] for x in ope[1] if strip_refs(x)[0] == "const"} == {60, 62}) or (ope[0] == "var" and gp.locals[ope[2]] == "char")
+            di = table.get("idx", set())
+            ok = ki is not None and vi is not None and ki[1] == vi[1] and ope_ok and di == {term_str(ki[1])}
+            C.ob("R5", "comparison#%d" % n, ok, gp.loc(bi), "`%s`: key index %s, cursor index %s, direction read at index %s" % (_lits(parts).strip(), term_str(ki[1]) if ki else None, term_str(vi[1]) if vi else None, sorted(di)))
+        for n, (bi, parts, holes) in enumerate(prefix):
+            ki = _index_call(holes[0][1], r"order_by")
+            ok = False
+            detail = "key index not found"
+            if ki and ki[1][0] == "var":
+                ds = gp.var_defs(ki[1])
+                # j = item.0 of an enumerate over the cursor list; the value = item.1 of the same `next`
+                jd = ds[0] if len(ds) == 1 else None
+                vt = holes[1][1]
+                nxt = _find_sub(jd, lambda s: s[0] == "call" and s[1].endswith("::next")) if jd else None
+                def from_same_next(s):
+                    if s[0] == "call" and s[1].endswith("::next") and s[3] == nxt[3]:
+                        return True
+                    if s[0] == "var" and len(s) > 2 and "FieldValue" in gp.locals[s[2]]:
+                        dd = gp.var_defs(s)
+                        return len(dd) == 1 and term_str(dd[0]).endswith("@Some.0.1") and _find_sub(dd[0], lambda c: c[0] == "call" and c[1].endswith("::next") and c[3] == nxt[3]) is not None
+                    return False
+                same = nxt is not None and _find_sub(vt, from_same_next) is not None
+                enum = nxt is not None and "Enumerate" in (nxt[4] or "") and "FieldValue" in (nxt[4] or "")
+                ok = bool(jd) and term_str(jd).endswith("@Some.0.0") and same and enum
+                detail = "key index %s = %s; value from the same iteration: %s; iteration enumerates the cursor values: %s" % (term_str(ki[1]), term_str(jd) if jd else None, same, enum)
+            C.ob("R5", "tie-prefix#%d" % n, ok, gp.loc(bi), "`%s`: %s" % (_lits(parts).strip(), detail))
+    except mir.MissingAnchor as e:
+        C.anchor_missing("R5", "get_paging", e)
+    # ---- R6
+    try:
+        gf = P.body("query::get_fields")
+        seen = {}
+        for bi, parts in _templates(gf):
+            fn = None
+            for s, vals, term in gf.guards(bi, expand_vars=True):
+                dv = mir.discr_variants(term, vals)
+                if dv and term[2].endswith("Function") and len(dv[1]) == 1:
+                    fn = dv[1][0]
+            if fn is None:
+                continue
+            txt = _lits(parts)
+            if "(" not in txt:
+                continue
+            seen.setdefault(fn, []).append((bi, txt, parts))
+        C.floor("R6", "aggregate functions compiled", len(seen), 5)
+        for fn, sites in sorted(seen.items()):
+            for bi, txt, parts in sites:
+                want = AGG.get(fn)
+                ok = want is not None and re.search(want, txt) is not None and len(re.findall(r"\b(avg|count|max|min|total|sum)\(", txt)) == 1
+                detail = "`%s`" % txt.strip()
+                if ok and fn != "Count":
+                    holes = [p for p in parts if p[0] == "hole"]
+                    arg = holes[-1][1]
+                    # the aggregated expression: js_field(<payload of the variant>) or the system field's name
+                    srcs = [term_str(x) for x in (arg[1] if arg[0] == "phi" else [arg])]
+                    okf = all((("js_field(" in s or "_json->" in s) and "@%s.0" % fn in s) or s.endswith("field.name)") or "field.name" in s for s in srcs)
+                    ok = ok and okf
+                    detail += " over %s" % srcs
+                C.ob("R6", "aggregate:%s" % fn, ok, gf.loc(bi), detail)
+    except mir.MissingAnchor as e:
+        C.anchor_missing("R6", "get_fields", e)
+    # ---- R7
+    try:
+        n = 0
+        for fname in ("query::get_where_filters", "query::get_having_filters"):
+            b = P.body(fname)
+            C.saw(b)
+            # assignments of the constants 'is' / 'is not' to a String variable, with the string comparison that guards them
+            for l, name, ty, leaf in b.named_locals():
+                if ty != "std::string::String":
+                    continue
+                for (bi, si, rv, lhs) in b.defs().get(l, ()):
+                    if b.blocks[bi]["cl"] or bi not in b.live_blocks():
+                        continue
+                    v = term_str(b.def_term(bi, si, rv, 0))
+                    m = re.search(r"from\('(is|is not)'\)$", v)
+                    if not m:
+                        continue
+                    n += 1
+                    g = b.guards(bi, expand_vars=True)
+                    null_arm = any((mir.discr_variants(term, vals) or (None, []))[1] == ["Null"] for s, vals, term in g)
+                    cmp_ = None
+                    for s, vals, term in g:
+                        atom, truth = mir.cond_atoms(term, vals)
+                        ts = term_str(atom)
+                        mm = re.search(r"'(=|!=)'", ts)
+                        if mm and truth is True and re.search(r"\beq\(|==|Eq", ts) and "operation" in field_path(_find_sub(atom, lambda s: s[0] == "field") or ("unknown",)):
+                            cmp_ = mm.group(1)
+                    want = {"is": "=", "is not": "!="}[m.group(1)]
+                    C.ob("R7", "null-operator:%s:%s#%d" % (short(fname), m.group(1).replace(" ", "-"), len([1 for o in C.obligations if o["key"].startswith("C05/R7/null-operator:%s:%s" % (short(fname), m.group(1).replace(" ", "-")))])),
+                         null_arm and cmp_ == want, b.loc(bi), "`%s` assigned in the Null arm: %s, when the parsed operation is %r (needed %r)" % (m.group(1), null_arm, cmp_, want))
+        C.floor("R7", "null operator rewrites", n, 6)
+    except mir.MissingAnchor as e:
+        C.anchor_missing("R7", "filters", e)
+    # ---- R8
+    try:
+        n = 0
+        for b in P.in_file("database/query.rs"):
+            for bi, parts in _templates(b):
+                for i, p in enumerate(parts[:-1]):
+                    if p[0] != "lit" or parts[i + 1][0] != "hole":
+                        continue
+                    m = re.search(r"(value|_json)->>?'\$\.$", p[1])
+                    if not m:
+                        continue
+                    h = parts[i + 1][1]
+                    srcs = h[1] if h[0] == "phi" else [h]
+                    paths = []
+                    for s in srcs:
+                        fp = full_path(b, s) if s[0] != "call" else term_str(s)
+                        mcol = re.match(r"^(\w+)\.\[\]$", fp)
+                        if mcol:
+                            # items of a local list: what is pushed into it
+                            pushed = [full_path(b, strip_refs(b.call_args(pb, expand_vars=True)[1])) for pb, pt in b.live_calls()
+                                      if callee_name(pt).endswith("Vec::push") and field_path(strip_refs(b.call_args(pb)[0])) == mcol.group(1)]
+                            paths += [re.sub(r"^clone\((.*)\)$", r"\1", x) for x in pushed] or [fp]
+                        elif s[0] == "param" and len(s) > 2:
+                            # builder parameter: what every caller passes at that position
+                            for cb, cbi, ct in P.call_sites(re.escape(short(b.id)) + "$"):
+                                if cb.blocks[cbi]["cl"] or cbi not in cb.live_blocks():
+                                    continue
+                                a = strip_refs(cb.call_args(cbi, expand_vars=True)[s[2] - 1])
+                                while a[0] == "call" and a[2] and re.search(r"::deref$|::as_str$|::clone$", a[1]):
+                                    a = strip_refs(a[2][0])
+                                paths.append(full_path(cb, a))
+                        else:
+                            paths.append(fp)
+                    n += 1
+                    if m.group(1) == "value":
+                        ok = all(re.search(r"\.name$|::name\(", x) for x in paths)
+                    else:
+                        ok = bool(paths) and all(re.search(r"short_name$|field_type(@Aggregate)?\.0(@\w+)?\.0$", x) for x in paths)
+                    sel = None
+                    for s, vals, term in b.guards(bi):
+                        atom, truth = mir.cond_atoms(term, vals)
+                        if field_path(atom).endswith(".is_selected") and truth is not None:
+                            sel = truth
+                    if sel is not None:
+                        ok = ok and (sel == (m.group(1) == "value"))
+                    C.ob("R8", "accessor:%s:%s#%d" % (short(b.id), m.group(1), len([1 for o in C.obligations if o["key"].startswith("C05/R8/accessor:%s:%s#" % (short(b.id), m.group(1)))])),
+                         ok, b.loc(bi), "`%s{}`: name from %s, is_selected on this path: %s" % (p[1][-12:], paths, sel))
+        C.floor("R8", "accessor templates", n, 19)
+    except mir.MissingAnchor as e:
+        C.anchor_missing("R8", "query.rs", e)
